@@ -69,6 +69,17 @@ def run(ctx, eng):
     ctx.ob('ORD.gate', fi.qual, 'server gate first', gate and not bad,
            '; '.join(sorted(set(bad))) or 'RFC1122Error for servers before '
            'anything else', node=fi.node)
+    check_priority_frame_fields(ctx, eng)
+    _rest(ctx, eng)
+
+
+def check_priority_frame_fields(ctx, eng):
+    """prioritize() and _set_frame_priority: weight-1 / depends_on /
+    exclusive with defaults 15 / 0 / False."""
+    m = eng.m
+    I = flow.stream_inliner(eng)
+    fi = m.func(H + 'prioritize')
+    paths = I.run(fi)
     bad = []
     n = 0
     defaults = {}
@@ -110,6 +121,11 @@ def run(ctx, eng):
     ctx.ob('FLOW.priority-frame', fi.qual, 'fields and defaults', n > 0 and
            not bad, '; '.join(sorted(set(bad))) or 'stream_weight = weight-1 '
            '(15), depends_on (0), exclusive (False)', node=fi.node)
+
+
+def _rest(ctx, eng):
+    m = eng.m
+    fsm = eng.fsm
     # ---- send_headers priority branch
     fs = m.func(H + 'send_headers')
     paths = eng.I.run(fs)
